@@ -138,7 +138,8 @@ class NgapMalformed(Stream):
             finally:
                 A.adv.cur = None
             for site in range(cnt.n)[:(2 if quick else 8)]:
-                for L in ([rng.choice([9, 16]), rng.choice([17, 64, 127])] if quick else [8, 9, 10, 16, 17, 32, 64, 127, 200]):
+                # ... and in NO content octet at all (length 0), which X.691 never produces
+                for L in ([0, rng.choice([9, 16]), rng.choice([17, 64, 127])] if quick else [0, 1, 8, 9, 10, 16, 17, 32, 64, 127, 200]):
                     A.adv.cur = A.Adv(site, 'bigint', L, rng.below(256))
                     try:
                         add(root, ref.encode(tname, params, v), "bigint")
